@@ -1,8 +1,460 @@
-(** C01 — interim property file: the local-equivalence lemmas are being proved. *)
-From DL Require Import Lib.Bytes Lua.Syntax Lua.Sem Lua.RunCheck.
+(** C01 — Default rules preserve program behaviour.
+
+    LOCAL semantic equivalences of the rewrites performed by the default rules, stated about the
+    models of [Model/DefaultRules.v] (tied to the Rust rules on every run by the correspondence
+    stream "default rules: node-level model ..." of vlib/defaultrules.py) against the reference
+    interpreter [Lua/Sem.v], for every dialect, fuel, environment, varargs and store.
+
+    NOT proved here: the lifting of these local equivalences to whole programs and to every
+    subset / order of the rules.  Whole-program equivalence is VALIDATED PER RUN by the
+    translation-validation stream of vlib/c01.py (vlib/rulecheck.py: original and output are
+    executed in this same reference interpreter under both dialects and several oracle streams).
+    remove_unused_variable and rename_variables are outside this file.
+
+    Reading guide.  [store_extends s s1]: [s1] is [s] plus fresh allocations only (no event, no
+    oracle consumption, nothing existing changed).  Where a rewrite drops a side-effect-free
+    expression, the original run continues in such an [s1] while the rewritten program continues
+    in [s]: the theorems say so explicitly ("exists s1, store_extends s s1 /\ ... s1 ...");
+    closing that gap (the semantics does not observe fresh garbage) is part of the lifting.
+    Preconditions [deep_safe], [ctor_pure], [env_plain] are those of the C08 theorems.
+    Only statements, closed by [exact], with their assumptions printed and pinned. *)
+From Coq Require Import List.
+From DL Require Import Lib.Bytes Lib.F64 Lua.Syntax Lua.Sem Model.Evaluator Model.DefaultRules
+  Lua.EvalSpec Lua.EvalSpec2 Proof.DefaultRulesSem Proof.DefaultRulesSoundBlock Proof.DefaultRulesSoundExpr
+  Proof.DefaultRulesSoundCond.
+Import ListNotations.
 Open Scope N_scope.
 
-Theorem C01_outcome_eqb_refl_nil : outcome_eqb (OutOk [] []) (OutOk [] []) = true.
-Proof. reflexivity. Qed.
-Print Assumptions C01_outcome_eqb_refl_nil.
-Check C01_outcome_eqb_refl_nil : outcome_eqb (OutOk [] []) (OutOk [] []) = true.
+(** ** compute_expression *)
+
+(** A side-effect-free unary / binary / if node whose static value is nil, a boolean, a string
+    or a number is replaced by the literal of that value: the literal evaluates, in the original
+    store and with any fuel >= 5, to exactly the node's value list (numbers bit for bit); the
+    node itself only added fresh allocations. *)
+Theorem C01_compute_replace_sound : forall d e lit n rho va s vs s',
+  computable_shape e = true ->
+  has_side_effects false e = false -> deep_safe d e = true -> env_plain s ->
+  lit_of_lv (evaluate e) = Some lit ->
+  eval d n rho va e s = Ok vs s' ->
+  store_extends s s' /\
+  forall n', (5 <= n')%nat -> eval d n' rho va lit s = Ok vs s.
+Proof. exact compute_replace_sound. Qed.
+Print Assumptions C01_compute_replace_sound.
+Check C01_compute_replace_sound : forall d e lit n rho va s vs s',
+  computable_shape e = true ->
+  has_side_effects false e = false -> deep_safe d e = true -> env_plain s ->
+  lit_of_lv (evaluate e) = Some lit ->
+  eval d n rho va e s = Ok vs s' ->
+  store_extends s s' /\
+  forall n', (5 <= n')%nat -> eval d n' rho va lit s = Ok vs s.
+
+(** ... and that literal is what the model of the rule leaves at the node. *)
+Theorem C01_rw_compute_literal : forall e lit,
+  computable_shape e = true -> has_side_effects false e = false ->
+  lit_of_lv (evaluate e) = Some lit -> rw_compute e = lit.
+Proof. exact rw_compute_literal. Qed.
+Print Assumptions C01_rw_compute_literal.
+Check C01_rw_compute_literal : forall e lit,
+  computable_shape e = true -> has_side_effects false e = false ->
+  lit_of_lv (evaluate e) = Some lit -> rw_compute e = lit.
+
+(** [l and r] / [l or r] with [l] side-effect free and of known truthiness, in a single-value
+    position: the kept operand yields the value of the whole expression. *)
+Theorem C01_compute_andor_sound : forall d op l r n rho va s vs s' b,
+  (op = BAnd \/ op = BOr) ->
+  has_side_effects false l = false -> deep_safe d l = true -> env_plain s ->
+  is_truthy (evaluate l) = Some b ->
+  eval d n rho va (EBinary op l r) s = Ok vs s' ->
+  exists m, n = S m /\
+    if Bool.eqb b (is_and op)
+    then exists s1 v, store_extends s s1 /\ eval1 d m rho va r s1 = Ok v s' /\ vs = [v]
+    else exists v, eval1 d m rho va l s = Ok v s' /\ vs = [v].
+Proof. exact compute_andor_sound. Qed.
+Print Assumptions C01_compute_andor_sound.
+Check C01_compute_andor_sound : forall d op l r n rho va s vs s' b,
+  (op = BAnd \/ op = BOr) ->
+  has_side_effects false l = false -> deep_safe d l = true -> env_plain s ->
+  is_truthy (evaluate l) = Some b ->
+  eval d n rho va (EBinary op l r) s = Ok vs s' ->
+  exists m, n = S m /\
+    if Bool.eqb b (is_and op)
+    then exists s1 v, store_extends s s1 /\ eval1 d m rho va r s1 = Ok v s' /\ vs = [v]
+    else exists v, eval1 d m rho va l s = Ok v s' /\ vs = [v].
+
+Theorem C01_rw_compute_andor : forall op l r b,
+  (op = BAnd \/ op = BOr) -> has_side_effects false (EBinary op l r) = true ->
+  has_side_effects false l = false -> is_truthy (evaluate l) = Some b ->
+  rw_compute (EBinary op l r) = if Bool.eqb b (is_and op) then r else l.
+Proof. exact rw_compute_andor. Qed.
+Print Assumptions C01_rw_compute_andor.
+Check C01_rw_compute_andor : forall op l r b,
+  (op = BAnd \/ op = BOr) -> has_side_effects false (EBinary op l r) = true ->
+  has_side_effects false l = false -> is_truthy (evaluate l) = Some b ->
+  rw_compute (EBinary op l r) = if Bool.eqb b (is_and op) then r else l.
+
+(** REFUTED in a multi-value position (recorded finding: [return true and f()] becomes
+    [return f()]). *)
+Theorem C01_compute_multivalue_refuted : exists d n rho va s e vs s' vs2 s2,
+  env_plain s /\
+  eval_list d n rho va [e] s = Ok vs s' /\ eval_list d n rho va [rw_compute e] s = Ok vs2 s2 /\
+  List.length vs = 1%nat /\ List.length vs2 = 2%nat.
+Proof. exact compute_multivalue_refuted. Qed.
+Print Assumptions C01_compute_multivalue_refuted.
+Check C01_compute_multivalue_refuted : exists d n rho va s e vs s' vs2 s2,
+  env_plain s /\
+  eval_list d n rho va [e] s = Ok vs s' /\ eval_list d n rho va [rw_compute e] s = Ok vs2 s2 /\
+  List.length vs = 1%nat /\ List.length vs2 = 2%nat.
+
+(** ** remove_unused_if_branch *)
+
+Theorem C01_if_branch_true_sound : forall d c B rest els n rho va s r s',
+  has_side_effects false c = false -> deep_safe d c = true -> env_plain s ->
+  is_truthy (evaluate c) = Some true ->
+  exec_stmt d n rho va (SIf (SBranch c B :: rest) els) s = Ok r s' ->
+  exists s1, store_extends s s1 /\ exec_stmt d n rho va (SDo B) s1 = Ok r s'.
+Proof. exact if_branch_true_sound. Qed.
+Print Assumptions C01_if_branch_true_sound.
+Check C01_if_branch_true_sound : forall d c B rest els n rho va s r s',
+  has_side_effects false c = false -> deep_safe d c = true -> env_plain s ->
+  is_truthy (evaluate c) = Some true ->
+  exec_stmt d n rho va (SIf (SBranch c B :: rest) els) s = Ok r s' ->
+  exists s1, store_extends s s1 /\ exec_stmt d n rho va (SDo B) s1 = Ok r s'.
+
+Theorem C01_if_branch_false_sound : forall d c B rest els n rho va s r s',
+  has_side_effects false c = false -> deep_safe d c = true -> env_plain s ->
+  is_truthy (evaluate c) = Some false ->
+  exec_stmt d n rho va (SIf (SBranch c B :: rest) els) s = Ok r s' ->
+  exists s1, store_extends s s1 /\
+    match rest, els with
+    | [], None => r = (rho, SigNone) /\ s' = s1
+    | [], Some eb => exec_stmt d n rho va (SDo eb) s1 = Ok r s'
+    | _, _ => exec_stmt d n rho va (SIf rest els) s1 = Ok r s'
+    end.
+Proof. exact if_branch_false_sound. Qed.
+Print Assumptions C01_if_branch_false_sound.
+Check C01_if_branch_false_sound : forall d c B rest els n rho va s r s',
+  has_side_effects false c = false -> deep_safe d c = true -> env_plain s ->
+  is_truthy (evaluate c) = Some false ->
+  exec_stmt d n rho va (SIf (SBranch c B :: rest) els) s = Ok r s' ->
+  exists s1, store_extends s s1 /\
+    match rest, els with
+    | [], None => r = (rho, SigNone) /\ s' = s1
+    | [], Some eb => exec_stmt d n rho va (SDo eb) s1 = Ok r s'
+    | _, _ => exec_stmt d n rho va (SIf rest els) s1 = Ok r s'
+    end.
+
+(** what the model answers in these two situations *)
+Theorem C01_simplify_if_true : forall c B rest els,
+  has_side_effects false c = false -> is_truthy (evaluate c) = Some true ->
+  simplify_if_statement (SBranch c B :: rest) els =
+  if block_is_empty B then FRemove else FReplace (SDo B).
+Proof. exact simplify_if_true. Qed.
+Print Assumptions C01_simplify_if_true.
+Check C01_simplify_if_true : forall c B rest els,
+  has_side_effects false c = false -> is_truthy (evaluate c) = Some true ->
+  simplify_if_statement (SBranch c B :: rest) els =
+  if block_is_empty B then FRemove else FReplace (SDo B).
+
+(** a kept condition (side effects allowed) that is statically truthy / falsy: the code the
+    rule deletes behind it is dead; identical runs for every outcome *)
+Theorem C01_if_true_rest_dead : forall d c B rest els n rho va s,
+  deep_safe d c = true -> ctor_pure d c = true -> env_plain s ->
+  is_truthy (evaluate c) = Some true ->
+  exec_stmt d n rho va (SIf (SBranch c B :: rest) els) s =
+  exec_stmt d n rho va (SIf [SBranch c B] None) s.
+Proof. exact if_true_rest_dead. Qed.
+Print Assumptions C01_if_true_rest_dead.
+Check C01_if_true_rest_dead : forall d c B rest els n rho va s,
+  deep_safe d c = true -> ctor_pure d c = true -> env_plain s ->
+  is_truthy (evaluate c) = Some true ->
+  exec_stmt d n rho va (SIf (SBranch c B :: rest) els) s =
+  exec_stmt d n rho va (SIf [SBranch c B] None) s.
+
+Theorem C01_if_false_block_dead : forall d c B rest els n rho va s,
+  deep_safe d c = true -> ctor_pure d c = true -> env_plain s ->
+  is_truthy (evaluate c) = Some false ->
+  exec_stmt d n rho va (SIf (SBranch c B :: rest) els) s =
+  exec_stmt d n rho va (SIf (SBranch c empty_block :: rest) els) s.
+Proof. exact if_false_block_dead. Qed.
+Print Assumptions C01_if_false_block_dead.
+Check C01_if_false_block_dead : forall d c B rest els n rho va s,
+  deep_safe d c = true -> ctor_pure d c = true -> env_plain s ->
+  is_truthy (evaluate c) = Some false ->
+  exec_stmt d n rho va (SIf (SBranch c B :: rest) els) s =
+  exec_stmt d n rho va (SIf (SBranch c empty_block :: rest) els) s.
+
+(** the same in semantic form ([always d rho va s c b]: whenever [c] evaluates in [s], its value
+    has truthiness [b]), with the instance that occurs in practice: a table constructor with
+    effectful entries ([if {f()} then ...]), which [ctor_pure] excludes above *)
+Theorem C01_if_true_rest_dead_sem : forall d c B rest els n rho va s,
+  always d rho va s c true ->
+  exec_stmt d n rho va (SIf (SBranch c B :: rest) els) s =
+  exec_stmt d n rho va (SIf [SBranch c B] None) s.
+Proof. exact if_true_rest_dead_sem. Qed.
+Print Assumptions C01_if_true_rest_dead_sem.
+Check C01_if_true_rest_dead_sem : forall d c B rest els n rho va s,
+  always d rho va s c true ->
+  exec_stmt d n rho va (SIf (SBranch c B :: rest) els) s =
+  exec_stmt d n rho va (SIf [SBranch c B] None) s.
+
+Theorem C01_if_false_block_dead_sem : forall d c B rest els n rho va s,
+  always d rho va s c false ->
+  exec_stmt d n rho va (SIf (SBranch c B :: rest) els) s =
+  exec_stmt d n rho va (SIf (SBranch c empty_block :: rest) els) s.
+Proof. exact if_false_block_dead_sem. Qed.
+Print Assumptions C01_if_false_block_dead_sem.
+Check C01_if_false_block_dead_sem : forall d c B rest els n rho va s,
+  always d rho va s c false ->
+  exec_stmt d n rho va (SIf (SBranch c B :: rest) els) s =
+  exec_stmt d n rho va (SIf (SBranch c empty_block :: rest) els) s.
+
+Theorem C01_always_table : forall d ens rho va s, always d rho va s (ETable ens) true.
+Proof. exact always_table. Qed.
+Print Assumptions C01_always_table.
+Check C01_always_table : forall d ens rho va s, always d rho va s (ETable ens) true.
+
+Theorem C01_always_not : forall d c b rho va s,
+  always d rho va s c b -> always d rho va s (EUnary UNot c) (negb b).
+Proof. exact always_not. Qed.
+Print Assumptions C01_always_not.
+Check C01_always_not : forall d c b rho va s,
+  always d rho va s c b -> always d rho va s (EUnary UNot c) (negb b).
+
+Theorem C01_if_empty_else_sound : forall d bs n rho va s r,
+  exec_stmt d n rho va (SIf bs (Some empty_block)) s = r -> r <> Fuel ->
+  exec_stmt d n rho va (SIf bs None) s = r.
+Proof. exact if_empty_else_sound. Qed.
+Print Assumptions C01_if_empty_else_sound.
+Check C01_if_empty_else_sound : forall d bs n rho va s r,
+  exec_stmt d n rho va (SIf bs (Some empty_block)) s = r -> r <> Fuel ->
+  exec_stmt d n rho va (SIf bs None) s = r.
+
+(** the if-EXPRESSION form *)
+Theorem C01_if_expr_true_sound : forall d c r rest els n rho va s vs s',
+  has_side_effects false c = false -> deep_safe d c = true -> env_plain s ->
+  is_truthy (evaluate c) = Some true ->
+  eval d n rho va (EIf (EBranch c r :: rest) els) s = Ok vs s' ->
+  rw_if_expr (EIf (EBranch c r :: rest) els) = paren_if_multi r /\
+  exists s1 n', store_extends s s1 /\ eval d n' rho va (paren_if_multi r) s1 = Ok vs s'.
+Proof. exact if_expr_true_sound. Qed.
+Print Assumptions C01_if_expr_true_sound.
+Check C01_if_expr_true_sound : forall d c r rest els n rho va s vs s',
+  has_side_effects false c = false -> deep_safe d c = true -> env_plain s ->
+  is_truthy (evaluate c) = Some true ->
+  eval d n rho va (EIf (EBranch c r :: rest) els) s = Ok vs s' ->
+  rw_if_expr (EIf (EBranch c r :: rest) els) = paren_if_multi r /\
+  exists s1 n', store_extends s s1 /\ eval d n' rho va (paren_if_multi r) s1 = Ok vs s'.
+
+Theorem C01_if_expr_false_sound : forall d c r rest els n rho va s vs s',
+  has_side_effects false c = false -> deep_safe d c = true -> env_plain s ->
+  is_truthy (evaluate c) = Some false ->
+  eval d n rho va (EIf (EBranch c r :: rest) els) s = Ok vs s' ->
+  exists s1 n', store_extends s s1 /\
+    eval d n' rho va (match rest with [] => paren_if_multi els | _ => EIf rest els end) s1 = Ok vs s'.
+Proof. exact if_expr_false_sound. Qed.
+Print Assumptions C01_if_expr_false_sound.
+Check C01_if_expr_false_sound : forall d c r rest els n rho va s vs s',
+  has_side_effects false c = false -> deep_safe d c = true -> env_plain s ->
+  is_truthy (evaluate c) = Some false ->
+  eval d n rho va (EIf (EBranch c r :: rest) els) s = Ok vs s' ->
+  exists s1 n', store_extends s s1 /\
+    eval d n' rho va (match rest with [] => paren_if_multi els | _ => EIf rest els end) s1 = Ok vs s'.
+
+(** ** remove_unused_while *)
+
+Theorem C01_while_false_sound : forall d c b n rho va s r s',
+  has_side_effects false c = false -> deep_safe d c = true -> env_plain s ->
+  is_truthy (evaluate c) = Some false ->
+  exec_stmt d n rho va (SWhile c b) s = Ok r s' ->
+  r = (rho, SigNone) /\ store_extends s s'.
+Proof. exact while_false_sound. Qed.
+Print Assumptions C01_while_false_sound.
+Check C01_while_false_sound : forall d c b n rho va s r s',
+  has_side_effects false c = false -> deep_safe d c = true -> env_plain s ->
+  is_truthy (evaluate c) = Some false ->
+  exec_stmt d n rho va (SWhile c b) s = Ok r s' ->
+  r = (rho, SigNone) /\ store_extends s s'.
+
+Theorem C01_while_kept_false : forall c b,
+  while_kept (SWhile c b) = false <->
+  has_side_effects false c = false /\ is_truthy (evaluate c) = Some false.
+Proof. exact while_kept_false. Qed.
+Print Assumptions C01_while_kept_false.
+Check C01_while_kept_false : forall c b,
+  while_kept (SWhile c b) = false <->
+  has_side_effects false c = false /\ is_truthy (evaluate c) = Some false.
+
+(** ** filter_after_early_return: the rule's rewrite of a block leaves the run of the block
+    unchanged, at the same fuel, for every outcome (values, Lua error, out of fuel) *)
+Theorem C01_early_return_sound : forall d b n rho va s,
+  exec_block d n rho va (rw_early_return b) s = exec_block d n rho va b s.
+Proof. exact early_return_sound. Qed.
+Print Assumptions C01_early_return_sound.
+Check C01_early_return_sound : forall d b n rho va s,
+  exec_block d n rho va (rw_early_return b) s = exec_block d n rho va b s.
+
+Theorem C01_early_return_stmts : forall d pre st rest last n rho va s,
+  stmt_returns st = true ->
+  exec_stmts d n rho va (pre ++ st :: rest) last s = exec_stmts d n rho va (pre ++ [st]) None s.
+Proof. exact early_return_stmts. Qed.
+Print Assumptions C01_early_return_stmts.
+Check C01_early_return_stmts : forall d pre st rest last n rho va s,
+  stmt_returns st = true ->
+  exec_stmts d n rho va (pre ++ st :: rest) last s = exec_stmts d n rho va (pre ++ [st]) None s.
+
+(** ** remove_empty_do *)
+
+Theorem C01_empty_do_stmt_sound : forall d n rho va s r s',
+  exec_stmt d n rho va (SDo (Block [] None)) s = Ok r s' -> r = (rho, SigNone) /\ s' = s.
+Proof. exact empty_do_stmt_sound. Qed.
+Print Assumptions C01_empty_do_stmt_sound.
+Check C01_empty_do_stmt_sound : forall d n rho va s r s',
+  exec_stmt d n rho va (SDo (Block [] None)) s = Ok r s' -> r = (rho, SigNone) /\ s' = s.
+
+(** at the head of a statement list (PARTIAL: a position after other statements needs fuel
+    monotonicity of the interpreter, which is part of the lifting) *)
+Theorem C01_empty_do_sound_partial : forall d n rho va rest last s r,
+  exec_stmts d n rho va (SDo (Block [] None) :: rest) last s = r -> r <> Fuel ->
+  exists n', exec_stmts d n' rho va rest last s = r.
+Proof. exact empty_do_sound. Qed.
+Print Assumptions C01_empty_do_sound_partial.
+Check C01_empty_do_sound_partial : forall d n rho va rest last s r,
+  exec_stmts d n rho va (SDo (Block [] None) :: rest) last s = r -> r <> Fuel ->
+  exists n', exec_stmts d n' rho va rest last s = r.
+
+(** ** remove_nil_declaration (PARTIAL: every variable initialised by a literal [nil]; the
+    general case permutes the fresh cells) *)
+Theorem C01_nil_decl_partial : forall d xs n rho va s r s',
+  xs <> [] -> names_distinct (map param_name xs) = true ->
+  exec_stmt d n rho va (SLocal false xs (repeat ENil (List.length xs))) s = Ok r s' ->
+  exec_stmt d n rho va (rw_nil_declaration (SLocal false xs (repeat ENil (List.length xs)))) s = Ok r s'.
+Proof. exact nil_decl_partial. Qed.
+Print Assumptions C01_nil_decl_partial.
+Check C01_nil_decl_partial : forall d xs n rho va s r s',
+  xs <> [] -> names_distinct (map param_name xs) = true ->
+  exec_stmt d n rho va (SLocal false xs (repeat ENil (List.length xs))) s = Ok r s' ->
+  exec_stmt d n rho va (rw_nil_declaration (SLocal false xs (repeat ENil (List.length xs)))) s = Ok r s'.
+
+Theorem C01_nil_decl_single_sound : forall d n rho va x s r s',
+  exec_stmt d n rho va (SLocal false [x] [ENil]) s = Ok r s' ->
+  rw_nil_declaration (SLocal false [x] [ENil]) = SLocal false [x] [] /\
+  exec_stmt d n rho va (SLocal false [x] []) s = Ok r s'.
+Proof. exact nil_decl_single_sound. Qed.
+Print Assumptions C01_nil_decl_single_sound.
+Check C01_nil_decl_single_sound : forall d n rho va x s r s',
+  exec_stmt d n rho va (SLocal false [x] [ENil]) s = Ok r s' ->
+  rw_nil_declaration (SLocal false [x] [ENil]) = SLocal false [x] [] /\
+  exec_stmt d n rho va (SLocal false [x] []) s = Ok r s'.
+
+(** ** convert_index_to_field *)
+
+Theorem C01_index_to_field_literal_sound : forall d n rho va p str s r,
+  eval d n rho va (EIndex p (EString str)) s = r -> r <> Fuel ->
+  eval d n rho va (EField p str) s = r.
+Proof. exact index_to_field_literal_sound. Qed.
+Print Assumptions C01_index_to_field_literal_sound.
+Check C01_index_to_field_literal_sound : forall d n rho va p str s r,
+  eval d n rho va (EIndex p (EString str)) s = r -> r <> Fuel ->
+  eval d n rho va (EField p str) s = r.
+
+(** the key is any side-effect-free expression that is statically the string [str]: the run of
+    [p[k]] is the prefix, then the key (exactly [VStr str], fresh allocations only), then
+    [index o "str"]; [p.str] is the same prefix followed by [index o "str"] *)
+Theorem C01_index_to_field_sound : forall d p k str n rho va s vs s',
+  has_side_effects false k = false -> deep_safe d k = true -> evaluate k = LString str ->
+  (forall m o s1, eval1 d m rho va p s = Ok o s1 -> env_plain s1) ->
+  eval d n rho va (EIndex p k) s = Ok vs s' ->
+  exists m o s1 s2 v,
+    n = S m /\ eval1 d m rho va p s = Ok o s1 /\
+    eval1 d m rho va k s1 = Ok (VStr str) s2 /\ store_extends s1 s2 /\
+    index d m o (VStr str) s2 = Ok v s' /\ vs = [v] /\
+    eval d n rho va (EField p str) s = (v <- index d m o (VStr str) ;; ret [v]) s1.
+Proof. exact index_to_field_sound. Qed.
+Print Assumptions C01_index_to_field_sound.
+Check C01_index_to_field_sound : forall d p k str n rho va s vs s',
+  has_side_effects false k = false -> deep_safe d k = true -> evaluate k = LString str ->
+  (forall m o s1, eval1 d m rho va p s = Ok o s1 -> env_plain s1) ->
+  eval d n rho va (EIndex p k) s = Ok vs s' ->
+  exists m o s1 s2 v,
+    n = S m /\ eval1 d m rho va p s = Ok o s1 /\
+    eval1 d m rho va k s1 = Ok (VStr str) s2 /\ store_extends s1 s2 /\
+    index d m o (VStr str) s2 = Ok v s' /\ vs = [v] /\
+    eval d n rho va (EField p str) s = (v <- index d m o (VStr str) ;; ret [v]) s1.
+
+(** when the prefix is a table that holds the key (no metamethod runs): same value list, the
+    stores differ by the key's fresh allocations *)
+Theorem C01_index_to_field_raw_sound : forall d p k str n rho va s vs s',
+  has_side_effects false k = false -> deep_safe d k = true -> evaluate k = LString str ->
+  (forall m o s1, eval1 d m rho va p s = Ok o s1 ->
+     env_plain s1 /\ exists a t, o = VTable a /\ nth_N (tables s1) (N.to_nat a) = Some t /\
+                                 raw_get (t_entries t) (VStr str) <> VNil) ->
+  eval d n rho va (EIndex p k) s = Ok vs s' ->
+  exists s1, eval d n rho va (EField p str) s = Ok vs s1 /\ store_extends s1 s'.
+Proof. exact index_to_field_raw_sound. Qed.
+Print Assumptions C01_index_to_field_raw_sound.
+Check C01_index_to_field_raw_sound : forall d p k str n rho va s vs s',
+  has_side_effects false k = false -> deep_safe d k = true -> evaluate k = LString str ->
+  (forall m o s1, eval1 d m rho va p s = Ok o s1 ->
+     env_plain s1 /\ exists a t, o = VTable a /\ nth_N (tables s1) (N.to_nat a) = Some t /\
+                                 raw_get (t_entries t) (VStr str) <> VNil) ->
+  eval d n rho va (EIndex p k) s = Ok vs s' ->
+  exists s1, eval d n rho va (EField p str) s = Ok vs s1 /\ store_extends s1 s'.
+
+(** ** remove_method_definition: [function b.f:m(ps) body end] and
+    [function b.f.m(self, ps) body end] run the same code after allocating closure records
+    that [call] cannot tell apart *)
+Theorem C01_method_def_stmt_sound : forall d n rho va base fields m f,
+  exec_stmt d (S n) rho va (SFunction base fields (Some m) f) =
+  (c <- new_closure (mkClosure f rho true) ;; sfunction_store d n rho va base (fields ++ [m]) c) /\
+  exec_stmt d (S n) rho va (rw_method_def (SFunction base fields (Some m) f)) =
+  (c <- new_closure (mkClosure (add_self f) rho false) ;; sfunction_store d n rho va base (fields ++ [m]) c).
+Proof. exact method_def_stmt_sound. Qed.
+Print Assumptions C01_method_def_stmt_sound.
+Check C01_method_def_stmt_sound : forall d n rho va base fields m f,
+  exec_stmt d (S n) rho va (SFunction base fields (Some m) f) =
+  (c <- new_closure (mkClosure f rho true) ;; sfunction_store d n rho va base (fields ++ [m]) c) /\
+  exec_stmt d (S n) rho va (rw_method_def (SFunction base fields (Some m) f)) =
+  (c <- new_closure (mkClosure (add_self f) rho false) ;; sfunction_store d n rho va base (fields ++ [m]) c).
+
+Theorem C01_method_def_call_sound : forall d n a args s1 s2 f rho,
+  get_closure a s1 = Ok (mkClosure f rho true) s1 ->
+  get_closure a s2 = Ok (mkClosure (add_self f) rho false) s2 ->
+  call d (S n) (VClosure a) args s1 =
+    call_closure d n (effective_params (mkClosure f rho true)) (closure_variadic (mkClosure f rho true))
+                 (closure_block (mkClosure f rho true)) rho args s1 /\
+  call d (S n) (VClosure a) args s2 =
+    call_closure d n (effective_params (mkClosure f rho true)) (closure_variadic (mkClosure f rho true))
+                 (closure_block (mkClosure f rho true)) rho args s2.
+Proof. exact method_def_call_sound. Qed.
+Print Assumptions C01_method_def_call_sound.
+Check C01_method_def_call_sound : forall d n a args s1 s2 f rho,
+  get_closure a s1 = Ok (mkClosure f rho true) s1 ->
+  get_closure a s2 = Ok (mkClosure (add_self f) rho false) s2 ->
+  call d (S n) (VClosure a) args s1 =
+    call_closure d n (effective_params (mkClosure f rho true)) (closure_variadic (mkClosure f rho true))
+                 (closure_block (mkClosure f rho true)) rho args s1 /\
+  call d (S n) (VClosure a) args s2 =
+    call_closure d n (effective_params (mkClosure f rho true)) (closure_variadic (mkClosure f rho true))
+                 (closure_block (mkClosure f rho true)) rho args s2.
+
+(** ** remove_function_call_parens *)
+
+Theorem C01_call_parens_string_sound : forall d n rho va p m str s vs s',
+  eval d n rho va (ECall p m (ATuple [EString str])) s = Ok vs s' ->
+  rw_call_parens (ECall p m (ATuple [EString str])) = ECall p m (AString str) /\
+  eval d n rho va (ECall p m (AString str)) s = Ok vs s'.
+Proof. exact call_parens_string_sound. Qed.
+Print Assumptions C01_call_parens_string_sound.
+Check C01_call_parens_string_sound : forall d n rho va p m str s vs s',
+  eval d n rho va (ECall p m (ATuple [EString str])) s = Ok vs s' ->
+  rw_call_parens (ECall p m (ATuple [EString str])) = ECall p m (AString str) /\
+  eval d n rho va (ECall p m (AString str)) s = Ok vs s'.
+
+(** the table form: the same computation of the argument list, two units of fuel apart, for
+    every outcome *)
+Theorem C01_call_parens_table_args : forall d n rho va ens s,
+  eval_args d (S (S (S n))) rho va (ATuple [ETable ens]) s = eval_args d (S n) rho va (ATable ens) s.
+Proof. exact call_parens_table_args. Qed.
+Print Assumptions C01_call_parens_table_args.
+Check C01_call_parens_table_args : forall d n rho va ens s,
+  eval_args d (S (S (S n))) rho va (ATuple [ETable ens]) s = eval_args d (S n) rho va (ATable ens) s.
